@@ -110,7 +110,7 @@ Definition flags_of (o: opts) : flags := {| g_on := o.(o_fon); g_ba := o.(o_fba)
 (* fields                                                               *)
 Inductive dflt := DNo | DVal (v: pv) | DFac (v: pv).   (* DFac v: default_factory whose call yields v *)
 
-(* the field's type as far as CodeBuilder.is_field_nullable looks at it (kernel K16) *)
+(* the field's type as far as CodeBuilder.is_field_nullable looks at it (kernel K17) *)
 Inductive fty :=
 | TyPlain                   (* int, date, List[...], a dataclass, ... *)
 | TyAny | TyNoneType | TyNoneLit        (* typing.Any, type(None), None *)
